@@ -468,7 +468,7 @@ fn run_kernels(opts: &Opts) {
 						json!({"v": key(v)})
 					}
 				};
-				w.case(json!({"op":"num.clamp","x":key(x),"lo":key(lo),"hi":key(hi),"_f":[x,lo,hi],"size":1}), ans);
+				w.case(json!({"op":"c04.clamp","x":key(x),"lo":key(lo),"hi":key(hi),"_f":[x,lo,hi],"size":1}), ans);
 				n_clamp += 1;
 			}
 		}
